@@ -77,7 +77,8 @@ def ansiOp (op : String) (j : Json) : Except String Res := do
     let preds :=
       if canon && implIsStr j && h ≥ 0 then
         [("snip_height", decide (((splitNL out).length : Int) ≤ max h 1))] ++
-        (if fits && w ≥ 1 then [("snip_width", AnsiSpec.linesWithin w (out.take (out.length - (if e.isSuffixOf out then e.length else 0))))] else [])
+        -- the ellipsis counts: room is made for it on the last line
+        (if fits && w ≥ 1 && AnsiSpec.visLen e ≤ 1 then [("snip_width", AnsiSpec.linesWithin w out)] else [])
       else []
     pure { model := exc js (Ansi.snip s w h e), preds := preds,
            nontrivial := decide (((splitNL s).length : Int) > h) }
